@@ -310,7 +310,7 @@ package msgpipeline
 //@ func (*msgpipelineDelivery).getDelivery
 //@   prop C04 C03
 //@   requires dd != nil && dd.deliveries != nil
-//@   modifies mapOf(dd.deliveries)
+//@   modifies mapOf(dd.deliveries), gOpen, gAcc, gBodyErr, gCommitted
 //@   ensures result1 == nil ==> has(dd.deliveries, tgt) && result0 == dd.deliveries[tgt]
 //@   ensures result1 == nil && !old(has(dd.deliveries, tgt)) ==> result0 != nil && fresh(result0) && len(result0.recipients) == 0
 //@   ensures forall t module.DeliveryTarget :: old(has(dd.deliveries, t)) ==> has(dd.deliveries, t) && dd.deliveries[t] == old(dd.deliveries[t])
